@@ -14,7 +14,7 @@ from . import common
 
 ID = "C14"
 RUNS = {"quick": 20000, "thorough": 1000000}
-TIME = {"quick": 75, "thorough": 1500}
+TIME = {"quick": 150, "thorough": 1500}
 RULE_TEXT = (
     "case = seeded (generator class incl. exact/MCMC variants, 1-3 blocs, slate sizes 1-3, bloc proportions and cohesion rows on a 1/20 grid incl. 0 and 1 "
     "entries and near-ties, supports incl. zero-support candidates, N in {1,2,3,5,17,100,...}, by_bloc) executed under one seeded stream of "
